@@ -149,6 +149,9 @@ package keeper
 //@ spec vplOf(s Store, a Addr) []types.ValidatorPrice = dec(types.ValidatorPriceList, s[types.ValidatorPriceListStoreKey(a)]).ValidatorPrices
 //@ func (k Keeper) CalculatePrices
 //@ modifies Store_feeds, Other
+// C02: price aggregation in the end-blocker never fails (the stored quorum string parses: validated parameters)
+//@ requires ext("LegacyNewDecFromStr#1", feedsParams(Store_feeds).PriceQuorum) == nil
+//@ ensures err == nil
 //@ assert before params: forall j :: 0 <= j && j < len(validatorsByPower) ==> (has(Store_feeds, types.ValidatorPriceListStoreKey(validatorsByPower[j].Address)) ==> has(allValidatorPrices, addrstr(validatorsByPower[j].Address)))
 //@ loop 0: invariant Store_feeds == old(Store_feeds)
 //@ loop 0: invariant forall j :: 0 <= j && j < #i ==> (has(Store_feeds, types.ValidatorPriceListStoreKey(validatorsByPower[j].Address)) ==> has(allValidatorPrices, addrstr(validatorsByPower[j].Address)))
@@ -223,5 +226,5 @@ package keeper
 // ---- C02: the only writer of the parameter record stores validated parameters only --------------------------------
 //@ func (k Keeper) SetParams
 //@ modifies Store_feeds
-//@ ensures err == nil ==> Store_feeds == store(old(Store_feeds), types.ParamsKey, enc(p)) && p.CurrentFeedsUpdateInterval > 0 && p.PowerStepThreshold > 0 && p.MinInterval > 0 && p.MaxInterval > 0
+//@ ensures err == nil ==> Store_feeds == store(old(Store_feeds), types.ParamsKey, enc(p)) && p.CurrentFeedsUpdateInterval > 0 && p.PowerStepThreshold > 0 && p.MinInterval > 0 && p.MaxInterval > 0 && ext("LegacyNewDecFromStr#1", p.PriceQuorum) == nil
 //@ ensures err != nil ==> Store_feeds == old(Store_feeds)
